@@ -73,6 +73,11 @@ type c13Case struct {
 	Observe string   `json:"observe,omitempty"` // none | cb (an OnError handler that reads err.Error(), given to the caller's run with WithCallbacks)
 	Hops    []c13Hop `json:"hops,omitempty"`    // oracle side: what happens to the error, innermost first
 	obs     *c13Observer
+	// family drainfail (c13_drain.go): an interrupt and a node failure meet in an eager (Workflow) run
+	IntKind string         `json:"intKind,omitempty"` // what puts the loop at an interrupt point when it takes node intr: after | before | rerun | nested
+	Sibs    []c13Sib       `json:"sibs,omitempty"`    // the nodes running next to intr
+	Drain   []c13DrainTask `json:"drain,omitempty"`   // oracle side: the tasks in (nominal) completion order
+	dr      *c13DrainSync
 }
 
 type c13Obs struct {
@@ -300,6 +305,11 @@ func c13RunImpl(c *c13Case) (obs *c13Obs, class string) {
 		if r, err = c13ObsCompile(ctx, c); err != nil {
 			return nil, "compile-error:" + err.Error()
 		}
+	} else if c.Kind == "drainfail" {
+		var err error
+		if r, err = c13DrainCompile(ctx, c); err != nil {
+			return nil, "compile-error:" + err.Error()
+		}
 	} else {
 		g, opts, err := c13Graph(c, 0, func(nodeCtx context.Context) {
 			if ender != nil {
@@ -350,7 +360,7 @@ func c13RunImpl(c *c13Case) (obs *c13Obs, class string) {
 		o.Path = append(o.Path, p...)
 	}
 	_, o.Interrupt = compose.ExtractInterruptInfo(runErr)
-	if c13IsPanicFamily(c.Kind) {
+	if c13IsPanicFamily(c.Kind) || c.Kind == "drainfail" {
 		if o.Text = runErr.Error(); len(o.Text) > 240 {
 			o.Text = o.Text[:240]
 		}
@@ -691,7 +701,7 @@ func c13One(ctx *vh.Ctx, c *c13Case) error {
 }
 
 func runC13(ctx *vh.Ctx) error {
-	ctx.Res.Rule = "random failure scenarios: nesting depth 0-4, failing lambda kind x calling paradigm x trigger mode per level x error shape (leaf / %w chains / panic / post-handler / step limit / cancellation); non-trivial = at least one nesting level; distinct by (kind, lambda kind, paradigm, depth, error shape, modes, siblings); plus the panic families statepanic (graphs/chains/workflows with state: failing inside the ProcessState handler while siblings of the step use the state; non-trivial = at least one sibling) and streampanic (channel-backed stream inputs, close styles, several failing lanes, run in a child process), distinct by all their case fields; ctxend (the context of the run ends between two steps of a graph at any nesting level: cancel / cancel(cause) / expired deadline or timeout / a context type of the caller with Err() = DeadlineExceeded, Canceled or its own value; already done at the start or ended by a node that returns normally; handed to the run directly or as a WithValue / WithCancel child; errors.Is compared against Canceled, DeadlineExceeded, the custom value, the cause, ErrExceedMaxSteps; non-trivial = not a plain top-level cancellation; distinct by how/when/wrap/paradigm/level/modes) and fwdtree (reader expressions: StreamReaderWithConvert with a convert function that panics or fails on chosen values, Copy, MergeStreamReaders over array- and channel-backed sources, drained in a child process; non-trivial = a panic is raised on a forwarding goroutine; distinct by the expression); obsnode (2-4 nested levels, each sub-graph embedded as a graph node, through a lambda that runs the compiled graph and returns / reads / %w-wraps its error or passes a logging OnError handler to it, or through a ToolsNode whose tool runs the graph; optionally a logging OnError handler on the caller's run; the node path is compared as the TEXT of the returned error names it, next to the path field and errors.Is; non-trivial = somebody read the error before the last level; distinct by via/observe/paradigm/lambda kind/error shape/modes); in every family the path named by the error text is compared too"
+	ctx.Res.Rule = "random failure scenarios: nesting depth 0-4, failing lambda kind x calling paradigm x trigger mode per level x error shape (leaf / %w chains / panic / post-handler / step limit / cancellation); non-trivial = at least one nesting level; distinct by (kind, lambda kind, paradigm, depth, error shape, modes, siblings); plus the panic families statepanic (graphs/chains/workflows with state: failing inside the ProcessState handler while siblings of the step use the state; non-trivial = at least one sibling) and streampanic (channel-backed stream inputs, close styles, several failing lanes, run in a child process), distinct by all their case fields; ctxend (the context of the run ends between two steps of a graph at any nesting level: cancel / cancel(cause) / expired deadline or timeout / a context type of the caller with Err() = DeadlineExceeded, Canceled or its own value; already done at the start or ended by a node that returns normally; handed to the run directly or as a WithValue / WithCancel child; errors.Is compared against Canceled, DeadlineExceeded, the custom value, the cause, ErrExceedMaxSteps; non-trivial = not a plain top-level cancellation; distinct by how/when/wrap/paradigm/level/modes) and fwdtree (reader expressions: StreamReaderWithConvert with a convert function that panics or fails on chosen values, Copy, MergeStreamReaders over array- and channel-backed sources, drained in a child process; non-trivial = a panic is raised on a forwarding goroutine; distinct by the expression); obsnode (2-4 nested levels, each sub-graph embedded as a graph node, through a lambda that runs the compiled graph and returns / reads / %w-wraps its error or passes a logging OnError handler to it, or through a ToolsNode whose tool runs the graph; optionally a logging OnError handler on the caller's run; the node path is compared as the TEXT of the returned error names it, next to the path field and errors.Is; non-trivial = somebody read the error before the last level; distinct by via/observe/paradigm/lambda kind/error shape/modes); drainfail (an eager Workflow, nested in 0-2 graphs: node intr puts the loop at an interrupt point — interrupt-after, interrupt-before on its successor, InterruptAndRerun, a nested graph that interrupts — while 1-3 siblings, each ok / failing / panicking, finish before intr (early) or only after the loop has taken intr (late: they are drained); the failure must win over the interrupt; non-trivial = a late sibling fails; distinct by interrupt kind/siblings/paradigm/error shape/depth); in every family the path named by the error text is compared too"
 	if ctx.Replay != nil {
 		var c c13Case
 		if err := json.Unmarshal(ctx.Replay, &c); err != nil {
@@ -727,6 +737,9 @@ func runC13(ctx *vh.Ctx) error {
 		if c.Kind == "obsnode" {
 			return c13ObsOne(ctx, &c)
 		}
+		if c.Kind == "drainfail" {
+			return c13DrainOne(ctx, &c)
+		}
 		return c13One(ctx, &c)
 	}
 	n := ctx.N(3000, 20000)
@@ -743,6 +756,9 @@ func runC13(ctx *vh.Ctx) error {
 		return err
 	}
 	if err := c13RunObserved(ctx); err != nil {
+		return err
+	}
+	if err := c13RunDrain(ctx); err != nil {
 		return err
 	}
 	for _, par := range []string{"invoke", "stream", "collect", "transform"} {
